@@ -101,6 +101,17 @@ def store_chain(arr):
         st.append((arr.arg(1), arr.arg(2))); arr = arr.arg(0)
     return arr, st[::-1]
 
+def array_value(a):
+    """{'array_default': d, 'stores': {index: byte}} of a model's array value given as a store chain over a constant array (else None)"""
+    st = {}
+    chain = []
+    while z3.is_app(a) and a.decl().kind() == z3.Z3_OP_STORE: chain.append((a.arg(1), a.arg(2))); a = a.arg(0)
+    if not z3.is_K(a) or not z3.is_bv_value(a.arg(0)): return None
+    for i, v in reversed(chain):
+        if not (z3.is_bv_value(i) and z3.is_bv_value(v)): return None
+        st[str(i.as_long())] = v.as_long()
+    return dict(array_default=a.arg(0).as_long(), stores=st)
+
 def model_dict(m):
     d = {}
     for v in m.decls():
@@ -108,6 +119,7 @@ def model_dict(m):
             val = m[v]
             if z3.is_bv_value(val): d[v.name()] = val.as_long()
             elif z3.is_int_value(val): d[v.name()] = val.as_long()
+            elif z3.is_expr(val) and z3.is_array(val) and array_value(val) is not None: d[v.name()] = array_value(val)
             else: d[v.name()] = str(val)[:200]
         except Exception:
             d[v.name()] = '?'
